@@ -37,7 +37,9 @@ EXTRA_SEED_BASE = 100000                 # + VERIF_SEED: one extra, rotating swe
 FIRST_SEARCH_SEED = 16
 
 RULE = (
-    'Corpus (fixed): FlowIR package "rich" (3 platforms, variables at 3 scopes, 3 environments, blueprint, replicate / '
+    'Corpus (fixed; every document kind contains mappings whose values reference sibling keys through chains of >=2 '
+    'levels - environment variables $A / ${A} and workflow variables %(a)s - written so that neither the given nor the '
+    'sorted key order is the dependency order): FlowIR package "rich" (3 platforms, variables at 3 scopes, 4 environments, blueprint, replicate / '
     'aggregate, component+data+input references, platform override, key outputs, same name in two stages), DSL 2.0 '
     'package (nested workflows, one template instantiated twice, OutputReferences with/without path, :copy, legacy '
     'reference, environments), DOSINI package (4 platform files, 3 stage files, 3 variables.d files), DOSINI package of '
